@@ -82,6 +82,10 @@ func newYarnSpinnerFunction(function any) (YarnSpinnerFunction, error) {
 	if functionType == nil || functionType.Kind() != reflect.Func {
 		return nil, fmt.Errorf("newYarnSpinnerFunction expects an argument which is a function")
 	}
+	if reflect.ValueOf(function).IsNil() {
+		// a nil value of a function type: there is nothing to call, reflect.Value.Call would panic
+		return nil, fmt.Errorf("newYarnSpinnerFunction expects a function which is not nil")
+	}
 
 	returnSignature, err := checkFunctionOutputParameters(functionType)
 	if err != nil {
